@@ -364,7 +364,9 @@ Section Runs.
       In (c, q) (rel s) -> rel s' = del_rel (rel s) c q -> (forall c', nextseq s' c' = nextseq s c') ->
       ilog s' = ilog s ++ [EvReconv c q who t n] -> eff s s'
   | EffDrop (c q : Z) :        (* success acknowledgement: the record goes, nothing is re-converted *)
-      rel s' = del_rel (rel s) c q -> (forall c', nextseq s' c' = nextseq s c') -> ilog s' = ilog s -> eff s s'.
+      rel s' = del_rel (rel s) c q -> (forall c', nextseq s' c' = nextseq s c') -> ilog s' = ilog s -> eff s s'
+  | EffClear :                 (* genesis export / import as the code is: every record goes, nothing is re-converted *)
+      rel s' = [] -> (forall c', nextseq s' c' = nextseq s c') -> ilog s' = ilog s -> eff s s'.
 
   Lemma eff_refl s : eff s s.
   Proof. apply (EffSame s s []); auto; [rewrite app_nil_r; reflexivity|intros e []]. Qed.
@@ -501,7 +503,15 @@ Section Runs.
         destruct P3 as (R3&N3&L3&_). inversion H3; subst s'. cbn [rel nextseq ilog with_rel with_log] in *.
         right. exists t. split; [apply in_rel_In; exact E|]. repeat split; congruence.
       + inversion H2; subst. left. split; [reflexivity|]. repeat split; assumption.
-    - apply bind_ok in H. destruct H as (s1 & P1 & H1). apply bind_ok in H1. destruct H1 as (s2 & P2 & H2).
+    - destruct (pair_on s VoucherMeta).
+      { apply bind_ok in H. destruct H as (s1 & P1 & H1). apply bind_ok in H1. destruct H1 as (s2 & P2 & H2).
+        assert (SP : same_proj s s2).
+        { eapply same_proj_trans; [apply mint_proj|]. eapply same_proj_trans; [eapply pay_proj; eassumption|].
+          eapply voucher_to_self_proj; eassumption. }
+        destruct SP as (R&N&L&C&S&PO&HA). rewrite R in H2.
+        destruct (in_rel (rel s) _ _) eqn:E; [discriminate|]. inversion H2; subst. left. split; [reflexivity|].
+        repeat split; assumption. }
+      apply bind_ok in H. destruct H as (s1 & P1 & H1). apply bind_ok in H1. destruct H1 as (s2 & P2 & H2).
       apply bind_ok in H2. destruct H2 as (s3 & P3 & H3).
       assert (SP : same_proj s s3).
       { eapply same_proj_trans; [apply mint_proj|]. eapply same_proj_trans; [eapply pay_proj; eassumption|].
@@ -536,12 +546,13 @@ Section Runs.
     intros Hcb pk s f Hf. unfold tx, branch, commit, discard.
     destruct (cb pk (f s)) as [x'|x'] eqn:E; cbn [fst]; [|apply eff_refl].
     specialize (Hcb _ _ _ E). destruct (Hf s) as (R&N&L).
-    destruct Hcb as [evs R' N' L' B|c R' N' L'|c R' N' L'|c q who t n I R' N' L'|c q R' N' L'].
+    destruct Hcb as [evs R' N' L' B|c R' N' L'|c R' N' L'|c q who t n I R' N' L'|c q R' N' L'|R' N' L'].
     - apply (EffSame s x' evs); [congruence| |congruence|exact B]. intros c. rewrite N', N. reflexivity.
     - rewrite N, R, L in *. eapply EffSendEvm; eauto.
     - rewrite N, R, L in *. eapply EffSendPlain; eauto.
     - rewrite R, L in *. eapply EffReconv; eauto. intros c'. rewrite N', N. reflexivity.
     - rewrite R, L in *. eapply EffDrop; eauto. intros c'. rewrite N', N. reflexivity.
+    - rewrite L in *. eapply EffClear; eauto. intros c'. rewrite N', N. reflexivity.
   Qed.
 
   Lemma on_ack_eff ok pk x x' : on_ack pk ok x = Ok x' -> eff x x'.
@@ -552,7 +563,7 @@ Section Runs.
 
   Lemma step_eff s o : eff s (step isender s o).
   Proof.
-    destruct o as [c a d n|c a d n|p|c q ok|c q|c q ok|c q|t]; cbn [step].
+    destruct o as [c a d n|c a d n|p|c q ok|c q|c q ok|c q|t|]; cbn [step].
     - unfold tx, branch, commit, discard. destruct (send_from_evm c a d n s) eqn:E; cbn [fst]; [eapply send_from_evm_eff; eauto|apply eff_refl].
     - unfold tx, branch, commit, discard. destruct (send_plain c a d n s) eqn:E; cbn [fst]; [eapply send_plain_eff; eauto|apply eff_refl].
     - apply recv_eff.
@@ -565,6 +576,7 @@ Section Runs.
     - unfold raw_deliver. destruct (find_pk _ _ _) as [pk|]; [|apply eff_refl].
       apply (cb_eff on_timeout (fun pk x x' H => refund_eff pk x x' H) pk s (fun x => x)). intros x. repeat split.
     - apply (EffSame _ _ []); auto; [rewrite app_nil_r; reflexivity|intros e []].
+    - apply EffClear; reflexivity.
   Qed.
 
   (* the invariant *)
@@ -601,7 +613,13 @@ Section Runs.
   Lemma inv_eff s s' : inv s -> eff s s' -> inv s'.
   Proof.
     intros (I1 & I2 & I3 & I4 & I5) E.
-    destruct E as [evs R N L B|c R N L|c R N L|c q who t n Hin R N L|c q R N L]; unfold inv; rewrite R, L.
+    destruct E as [evs R N L B|c R N L|c R N L|c q who t n Hin R N L|c q R N L|R N L]; unfold inv; rewrite R, L.
+    6: { repeat split.
+      + constructor.
+      + intros c' q' [].
+      + auto.
+      + intros c' q' Hc. rewrite N. auto.
+      + intros c' q'. specialize (I5 c' q'). cbn [in_rel existsb]. destruct (in_rel (rel s) c' q'); lia. }
     - repeat split; auto.
       + intros c q Hi. rewrite N. auto.
       + intros c q. rewrite count_app. destruct (benign_counts evs c q B) as [-> _]. rewrite Nat.add_0_r. auto.
@@ -685,7 +703,7 @@ Section Runs.
   (* every memo call that left a trace ran as a derived sender *)
   Lemma eff_calls s s' a : eff s s' -> In (EvCall a) (ilog s') -> In (EvCall a) (ilog s) \/ exists c sd, a = isender c sd.
   Proof.
-    intros E Hin. destruct E as [evs R N L B|c R N L|c R N L|c q who t n I R N L|c q R N L]; rewrite L in Hin;
+    intros E Hin. destruct E as [evs R N L B|c R N L|c R N L|c q who t n I R N L|c q R N L|R N L]; rewrite L in Hin;
       try (apply in_app_or in Hin; destruct Hin as [Hin|Hin]); auto.
     - destruct (B _ Hin) as [(r&t&n&E)|(c0&sd&E)]; [discriminate|]. inversion E. eauto.
     - destruct Hin as [E|[]]; discriminate.
@@ -752,7 +770,7 @@ Definition ex_bal : ledger := fun k =>
   if key_eqb k (ModTransfer, AVoucher, 0) then 400 else if key_eqb k (Supply, AVoucher, 0) then 400 else
   if key_eqb k (Escrow 0, AFx, 0) then 50 else 0.
 Definition ex_state : ist :=
-  {| ibal := ex_bal; rel := []; nextseq := fun _ => 1; commits := []; sent := []; pair_on := fun _ => true;
+  {| ibal := ex_bal; rel := []; nextseq := fun _ => 1; commits := []; sent := []; pair_on := fun t => negb (t =? VoucherMeta);
      has_acct := fun a => a =? 1700; ilog := [] |}.
 
 (* regression, labelled: the success path BEFORE the fix (finding C19-1) left the record in place *)
@@ -795,6 +813,13 @@ Lemma refund_refused_while_disabled pk s t :
   exists e, refund pk s = Err e.
 Proof.
   intros Hd Hrel Hoff. unfold refund. rewrite Hd.
+  destruct (pair_on s VoucherMeta).
+  { destruct (pay (mint s ModTransfer AVoucher t (p_amt pk)) ModTransfer (p_sender pk) AVoucher t (p_amt pk)) as [s1|s1] eqn:E1; cbn [bind]; [|eauto].
+    destruct (voucher_to_self (p_sender pk) AVoucher t (p_amt pk) s1) as [s2|s2] eqn:E2; cbn [bind]; [|eauto].
+    assert (SP : same_proj s s2).
+    { eapply same_proj_trans; [apply mint_proj|]. eapply same_proj_trans; [eapply pay_proj; eassumption|].
+      eapply voucher_to_self_proj; eassumption. }
+    destruct SP as (R&_). rewrite R, Hrel. eauto. }
   destruct (pay (mint s ModTransfer AVoucher t (p_amt pk)) ModTransfer (p_sender pk) AVoucher t (p_amt pk)) as [s1|s1] eqn:E1; cbn [bind]; [|eauto].
   destruct (pay s1 (p_sender pk) ModTransfer AVoucher t (p_amt pk)) as [s2|s2] eqn:E2; cbn [bind]; [|eauto].
   destruct (pay (mint s2 ModTransfer ACoin t (p_amt pk)) ModTransfer (p_sender pk) ACoin t (p_amt pk)) as [s3|s3] eqn:E3; cbn [bind]; [|eauto].
@@ -817,6 +842,45 @@ Proof.
   - cbn [rel with_commits]. rewrite Hc, Hq. exact Hrel.
   - exact Hoff.
   - rewrite E. split; reflexivity.
+Qed.
+
+(** * genesis export / import *)
+
+(* what the operation keeps and what it drops, for every state: balances, commitments in flight, sequences and the ghost log
+   survive; the tracking records do not (finding C19-2) *)
+Lemma export_import_state isender s :
+  let s' := step isender s ExportImport in
+  ibal s' = ibal s /\ commits s' = commits s /\ sent s' = sent s /\ nextseq s' = nextseq s /\ ilog s' = ilog s /\
+  rel s' = [] /\ pair_on s' VoucherMeta = true /\ (forall t, t <> VoucherMeta -> pair_on s' t = pair_on s t).
+Proof.
+  cbn. repeat split. intros t Ht. destruct (Z.eqb_spec t VoucherMeta); [contradiction|reflexivity].
+Qed.
+
+(* FINDING C19-2, labelled: an EVM-started transfer in flight across a genesis export / import is NOT refunded as ERC-20.
+   Same send, same timeout: without the export / import the sender's ERC-20 balance is restored (500); with it the
+   commitment is consumed, nothing is re-converted, and the sender is left with the voucher coins *)
+Lemma export_import_loses_record :
+  (let s := run ex_isender [SendFromEvm 0 0 (DAlias 0) 30; Timeout 0 1] ex_state in
+   commits s = [] /\ count (is_reconv 0 1) (ilog s) = 1%nat /\ ibal s (0, AErc, 0) = 500) /\
+  (let s := run ex_isender [SendFromEvm 0 0 (DAlias 0) 30; ExportImport; Timeout 0 1] ex_state in
+   commits s = [] /\ count (is_sendevm 0 1) (ilog s) = 1%nat /\ count (is_reconv 0 1) (ilog s) = 0%nat /\
+   ibal s (0, AErc, 0) = 470 /\ ibal s (0, ACoin, 0) = 0 /\ ibal s (0, AVoucher, 0) = 30).
+Proof. vm_compute. repeat split. Qed.
+
+(* once the voucher denom of an Alias token has bank metadata of its own (after a genesis import), the refund of a transfer
+   that HAS a tracking record can only fail: IBCCoinToBaseCoin hands the voucher itself to ConvertCoin, and no pair goes by
+   that name.  Restoring the records at import is therefore necessary but — for Alias vouchers — not sufficient *)
+Lemma alias_refund_refused_with_voucher_metadata pk s t :
+  p_denom pk = DAlias t -> in_rel (rel s) (p_chan pk) (p_seq pk) = true -> pair_on s VoucherMeta = true ->
+  exists e, refund pk s = Err e.
+Proof.
+  intros Hd Hrel Hm. unfold refund. rewrite Hd, Hm.
+  destruct (pay (mint s ModTransfer AVoucher t (p_amt pk)) ModTransfer (p_sender pk) AVoucher t (p_amt pk)) as [s1|s1] eqn:E1; cbn [bind]; [|eauto].
+  destruct (voucher_to_self (p_sender pk) AVoucher t (p_amt pk) s1) as [s2|s2] eqn:E2; cbn [bind]; [|eauto].
+  assert (SP : same_proj s s2).
+  { eapply same_proj_trans; [apply mint_proj|]. eapply same_proj_trans; [eapply pay_proj; eassumption|].
+    eapply voucher_to_self_proj; eassumption. }
+  destruct SP as (R&_). rewrite R, Hrel. eauto.
 Qed.
 
 (* no impersonation, under the stated disjointness of derived senders from local accounts *)
